@@ -82,6 +82,7 @@ def run_shape(ctx, label, shape, sample=None, rnd=None, invs=INVS):
         if e["text"] not in seen:
             seen.add(e["text"])
             uniq.append(e)
+    uniq.sort(key=lambda e: e["text"])
     if sample and len(uniq) > sample:
         uniq = rnd.sample(uniq, sample)
     nerr = sum(1 for e in uniq if e["phase"] == "err")
